@@ -8,6 +8,8 @@ fn oracle(input: &str, ext: usize, conv: u8, st: &mut Stats) -> Verdict {
     inv::c03_pipeline(input, ext, conv, st)
 }
 
+/// executions of the libFuzzer leg (thorough tier), over all jobs
+pub const FUZZ_RUNS: u64 = 3_000_000;
 pub const NONTRIVIAL: &str = "non-trivial = the event stream contains a component or a diagnostic";
 
 pub fn run(tier: Tier) -> i32 {
@@ -21,7 +23,7 @@ pub fn run(tier: Tier) -> i32 {
     }
     crate::recipe_inputs::run_recipe_inputs(&mut run, &b, NONTRIVIAL, &oracle);
     if tier == Tier::Thorough && !run.failed() {
-        crate::fuzzleg::run_fuzz_leg(&mut run, 16_000_000, &oracle);
+        crate::fuzzleg::run_fuzz_leg(&mut run, FUZZ_RUNS, &oracle);
     }
     run.finish()
 }
